@@ -5,6 +5,7 @@ call (construct, parse, copy, version, mark, bundle, store add/query, serialize,
 Oracle: snapshots identical; attribute/item assignment and deletion refused; a deep copy is equal to its original and
 shares no mutable container with it.
 """
+import collections
 import copy
 import datetime as dt
 import json
@@ -82,6 +83,10 @@ def containers(x, acc, depth=0):
     elif getattr(x, "__dict__", None):
         # a leaf that carries assignable attributes (the library's timestamp class and its precision metadata) is mutable state
         acc.add(id(x))
+
+
+class _CallersDict(dict):
+    """a mapping type of the caller's own"""
 
 
 class Guard:
@@ -176,8 +181,19 @@ def wl_sequence(ctx, rng, i):
         G.watch("parsed object", obj)
         obj_again = G.call("parse:dict-again", lambda: stix2.parse(d, allow_custom=True, version=ver), data=d)
         G.call("parse:text", lambda: stix2.parse(json.dumps(d), allow_custom=True))
-        # constructor from nested native kwargs (same kwargs dict reused twice)
         cls = cls_for(ver, t)
+        # the same content in mappings which are not exactly dict (json.load(..., object_pairs_hook=OrderedDict) is the everyday
+        # source of them): they are the caller's as much as a plain dictionary is
+        for mlabel, hook in (("OrderedDict", collections.OrderedDict), ("dict-subclass", _CallersDict)):
+            od = json.loads(json.dumps(o), object_pairs_hook=hook)
+            G.call("parse:%s" % mlabel, lambda: stix2.parse(od, allow_custom=True), data=od)
+            G.call("parse:%s-again" % mlabel, lambda: stix2.parse(od, allow_custom=True, version=ver), data=od)
+            G.call("construct:%s-kwargs" % mlabel, lambda: cls(allow_custom=True, **od), kwargs=od)
+            if t != "bundle":
+                G.call("bundle:of-%s" % mlabel, lambda: (stix2.v20 if ver == "2.0" else stix2.v21).Bundle(od, allow_custom=True), data=od)
+                G.call("store:MemoryStore(%s)" % mlabel, lambda: stix2.MemoryStore([od], allow_custom=True), data=od)
+            ctx.count("dict_subclass_inputs")
+        # constructor from nested native kwargs (same kwargs dict reused twice)
         kw = native.to_native(ver, d, rng)
         made = G.call("construct:kwargs", lambda: cls(allow_custom=True, **kw), kwargs=kw)
         G.call("construct:kwargs-again", lambda: cls(allow_custom=True, **kw), kwargs=kw)
